@@ -160,7 +160,7 @@ def run(ctx, pid, phases, title, extra_tb, rule):
                 import time as _t
                 t0 = _t.time()
                 i = 0
-                allph = ["counter", "list", "setnx", "multi", "setalg", "conserve", "book", "misc", "expiry"]
+                allph = ["counter", "list", "setnx", "multi", "setalg", "conserve", "book", "misc", "expiry", "pairs"]
                 while not viol and _t.time() - t0 < (300 if thorough else 45):
                     i += 1
                     viol += one_run(pid, d, "focus%d" % i, ctx.seed + 31 * i, "quick", allph, skip, tr,
